@@ -361,6 +361,38 @@ Proof.
     unfold sq_node. rewrite print_node_eq. nc.
 Qed.
 
+(* a top-level node (the blob of a row): its NAME may hold colons (wf_top); this is what wf_drawn demands *)
+Definition tgood (n : wnode) : Prop := wf_top n = true /\ nb_node n = true /\ sq_node n = true.
+
+Lemma ngood_tgood : forall n, ngood n -> tgood n.
+Proof. intros n [G1 [G2 G3]]. split; [exact (wf_node_wf_top n G1) | split; assumption]. Qed.
+
+Definition tname_ok (nm : option string) : bool := match nm with Some s => txt s | None => true end.
+
+Lemma elem_good_top : forall id nm ty ws f l tl,
+  ident id = true -> tname_ok nm = true -> ident ty = true -> wsok ws = true -> wsok tl = true -> noise_ok l = true ->
+  (forall t it, f t = Some it -> good it) ->
+  tgood (WNode id nm ty (items_of ws f l) tl).
+Proof.
+  intros id nm ty ws f l tl Hi Hn Ht Hws Htl Hl Hf.
+  destruct (elem_good id None ty ws f l tl Hi eq_refl Ht Hws Htl Hl Hf) as [W _].
+  destruct (items_of_good ws f l Hws Hl Hf) as [G1 [G2 G3]].
+  destruct (ident_parts id Hi) as [I1 [I2 [I3 I4]]]. destruct (ident_parts ty Ht) as [T1 [T2 [T3 T4]]].
+  unfold idok in I3, T3. apply andb_true_iff in I3, T3. destruct I3 as [I3 I5]. destruct T3 as [T3 T5].
+  assert (N : match nm with Some s => textok s | None => true end = true /\ nobrace (name_text nm) = true).
+  { destruct nm as [s|]; [|split; reflexivity]. cbn [tname_ok] in Hn.
+    cbn [name_text]. rewrite (txt_textok s Hn), (txt_nobrace s Hn). split; reflexivity. }
+  destruct N as [N1 N2].
+  assert (HT : headok_top id nm ty = true) by (unfold headok_top; rewrite I3, I2, I5, N1, T3, T2, T5; reflexivity).
+  split; [|split].
+  - unfold wf_top. rewrite HT, W. reflexivity.
+  - rewrite nb_node_eq, I4, N2, T4, G2. reflexivity.
+  - destruct (headok_top_parts _ _ _ HT) as [[Pi _] [Pn [Pt _]]].
+    assert (Hhd : allc pqc (head_text id nm ty) = true) by (unfold head_text, qname, dq; destruct nm as [s|]; cls).
+    pose proof (items_sq _ G3) as Hits. rewrite wsok_allc in Htl.
+    unfold sq_node. rewrite print_node_eq. nc.
+Qed.
+
 Lemma ngood_list : forall (A : Type) (P : A -> bool) (g : A -> wnode) l, (forall x, P x = true -> ngood (g x)) ->
   forallb P l = true ->
   forallb (fun x => wf_node x) (map g l) = true /\ forallb nb_node (map g l) = true /\ forallb sq_node (map g l) = true.
@@ -576,11 +608,12 @@ Proof.
   - inversion E. apply children_good; try side; cbn [forallb]; [rewrite T1 | rewrite T2 | rewrite T3]; reflexivity.
 Qed.
 
-Lemma assoc_good : forall D x, assoc_ok D x = true -> ngood (tree_of_assoc x).
+(* the NAME of an association may hold colons: a top-level node only *)
+Lemma assoc_good : forall D x, assoc_ok D x = true -> tgood (tree_of_assoc x).
 Proof.
   intros D x H. pose proof (assoc_item_good D x H) as Hf. unfold assoc_ok in H. split_and.
-  unfold tree_of_assoc. apply elem_good; try side.
-  - eapply name_ok_hname; eassumption.
+  unfold tree_of_assoc. apply elem_good_top; try side.
+  - destruct (sx_name x) as [n|]; [|reflexivity]. split_and. cbn [tname_ok]. assumption.
   - eapply layout_noise; eassumption.
 Qed.
 
@@ -598,15 +631,15 @@ Definition shape_ok (S : sdiagram) (se : string * selem) : bool :=
       && layout_ok (fun _ => None) noise
   end.
 
-Lemma shape_good : forall D se, shape_ok D se = true -> ngood (we_node (welem_of (snd se))).
+Lemma shape_good : forall D se, shape_ok D se = true -> tgood (we_node (welem_of (snd se))).
 Proof.
   intros D [sid e] H. unfold shape_ok in H. cbn [snd] in *.
   destruct e as [c|p|i|x|id nm ty par noise]; cbn [welem_of we_node].
-  - exact (class_good D c H).
-  - exact (package_good D p H).
-  - exact (inh_good D i H).
+  - exact (ngood_tgood _ (class_good D c H)).
+  - exact (ngood_tgood _ (package_good D p H)).
+  - exact (ngood_tgood _ (inh_good D i H)).
   - exact (assoc_good D x H).
-  - split_and. apply elem_good; try side.
+  - apply ngood_tgood. split_and. apply elem_good; try side.
     + eapply layout_noise; eassumption.
     + exact no_items_good.
 Qed.
@@ -623,7 +656,7 @@ Proof.
 Qed.
 
 (* the narrow domain (no free text, no apostrophe) lies in the wider one of the text-level theorem *)
-Lemma ngood_wide : forall n, ngood n -> wf_node n && nbq_node n && quote_ok (print_node n) = true.
+Lemma tgood_wide : forall n, tgood n -> wf_top n && nbq_node n && quote_ok (print_node n) = true.
 Proof.
   intros n [G1 [G2 G3]]. unfold sq_node in G3. rewrite G1, (nb_nbq n G2), (sq_quote_ok _ G3). reflexivity.
 Qed.
@@ -634,7 +667,7 @@ Proof.
   match goal with H : forallb _ (sd_shapes S) = true |- _ => rename H into Hs end.
   change (forallb (shape_ok S) (sd_shapes S) = true) in Hs.
   unfold wf_drawn, tree_of. cbn [wd_drawn]. revert Hs. apply forallb_map_imp. intros se Hse. cbn [snd].
-  exact (ngood_wide _ (shape_good S se Hse)).
+  exact (tgood_wide _ (shape_good S se Hse)).
 Qed.
 
 Print Assumptions tree_of_wf_drawn.
